@@ -51,6 +51,26 @@ pub struct SchedSpec {
     /// `Arc` is a point at which another task may run
     #[serde(default, skip_serializing_if = "is_false")]
     pub hold: bool,
+    /// 2 or 3: the operation under test is called by that many concurrent *caller* tasks on the same (shared,
+    /// borrowed) operands inside one execution, instead of by one caller; 0 / 1: a single caller
+    #[serde(default, skip_serializing_if = "is_zero")]
+    pub callers: u8,
+}
+
+#[allow(clippy::trivially_copy_pass_by_ref)]
+fn is_zero(b: &u8) -> bool {
+    *b == 0
+}
+
+/// How many concurrent callers a schedule drawn with this seed uses: a pure function of the seed (one
+/// schedule in six has 2 or 3 callers).
+pub fn callers_for_seed(seed: u64) -> u8 {
+    let m = vmodel::rng::mix(&[seed, 0xCA11_E125]);
+    if m % 6 == 0 {
+        2 + ((m >> 8) % 2) as u8
+    } else {
+        0
+    }
 }
 
 #[allow(clippy::trivially_copy_pass_by_ref)]
@@ -112,6 +132,8 @@ pub struct ExecLog {
     /// extra scheduling points of the seam passed during the execution (inside critical sections, at
     /// reference-count operations)
     pub extra_points: u64,
+    /// concurrent caller tasks that called the operation under test in this execution (0: one caller)
+    pub callers: u8,
 }
 
 pub struct SimScheduler {
